@@ -209,9 +209,31 @@ func genC15(tier string, seed uint64, emit func(string)) {
 
 func oracleC15(cfg []string, results []string) string {
 	running := false
+	// "while running, the registry contains exactly the connections being served": followed through histories made of
+	// the actions whose effect on the set of served connections is known here (anything else ends the bookkeeping)
+	exact := true
+	served := map[string]bool{}
 	for i, r := range results {
 		kv := strings.SplitN(r, "=", 2)
 		a, v := kv[0], kv[1]
+		f := strings.Split(a, ":")
+		switch {
+		case f[0] == "open" && len(f) == 3:
+			if v == "ok" {
+				served[f[2]] = true
+			}
+		case f[0] == "cclose" && len(f) == 2:
+			delete(served, f[1])
+		case f[0] == "stop" || f[0] == "restart":
+			served = map[string]bool{}
+		case f[0] == "start" || f[0] == "obs" || f[0] == "cmd" || f[0] == "ping" || f[0] == "alive":
+		case f[0] == "tlsbad" && len(f) == 2 && f[1] != "stall":
+		default:
+			exact = false
+		}
+		if a == "obs" && running && exact && !strings.HasPrefix(v, fmt.Sprintf("conns=%d,", len(served))) {
+			return fmt.Sprintf("fail:while running the registry does not hold exactly the %d connections being served: %s (step %d)", len(served), v, i)
+		}
 		switch {
 		case a == "start" && v == "ok", a == "restart" && v == "ok":
 			running = true
